@@ -390,28 +390,43 @@ def main(tier, seed):
                                    "rec": {"kind": "corr", "n": n, "model": ma, "impl": line}})
     # --- streaming: value, one space, label; 8-bit reps print digits
     ssrc = os.path.join(wd, "stream.cc")
-    reps = [("int8_t", "65"), ("uint8_t", "200"), ("int16_t", "-7"), ("uint16_t", "7"), ("int32_t", "-5"), ("uint32_t", "5"), ("int64_t", "-123456789012"),
-            ("uint64_t", "18446744073709551615ull"), ("float", "1.5f"), ("double", "-2.25"), ("long double", "0.125L")]
-    expect = ["65", "200", "-7", "7", "-5", "5", "-123456789012", "18446744073709551615", "1.5", "-2.25", "0.125"]
+    # every rep at its limits as well (a streamed value must be the stored number: uint32_t above INT_MAX, int8_t as a number, ...)
+    rv = [("int8_t", "65", "65"), ("int8_t", "-128", "-128"), ("int8_t", "127", "127"), ("uint8_t", "200", "200"), ("uint8_t", "255", "255"),
+          ("int16_t", "-7", "-7"), ("int16_t", "-32768", "-32768"), ("int16_t", "32767", "32767"), ("uint16_t", "7", "7"), ("uint16_t", "65535", "65535"),
+          ("int32_t", "-5", "-5"), ("int32_t", "(-2147483647 - 1)", "-2147483648"), ("int32_t", "2147483647", "2147483647"),
+          ("uint32_t", "5", "5"), ("uint32_t", "2147483648u", "2147483648"), ("uint32_t", "4000000000u", "4000000000"), ("uint32_t", "4294967295u", "4294967295"),
+          ("int64_t", "-123456789012", "-123456789012"), ("int64_t", "(-9223372036854775807ll - 1)", "-9223372036854775808"),
+          ("int64_t", "9223372036854775807ll", "9223372036854775807"), ("uint64_t", "9223372036854775808ull", "9223372036854775808"),
+          ("uint64_t", "18446744073709551615ull", "18446744073709551615"), ("float", "1.5f", "1.5"), ("double", "-2.25", "-2.25"), ("long double", "0.125L", "0.125")]
+    v32 = rng.randrange(2 ** 31, 2 ** 32)
+    v64 = rng.randrange(2 ** 63, 2 ** 64)
+    rv += [("uint32_t", f"{v32}u", str(v32)), ("uint64_t", f"{v64}ull", str(v64))]
+    reps = [(a, b) for a, b, _ in rv]
+    expect = [c for _, _, c in rv]
     skeys = rng.sample([k for k in A.atoms if "gen_src" not in A.atoms[k]], 4)
     with open(ssrc, "w") as f:
         f.write(PRELUDE % inc + "int main() {\n")
         for k in skeys:
             for (ct, v) in reps:
                 f.write(f'  {{ std::ostringstream os; os << au::make_quantity<{A.atoms[k]["cxx_type"]}>(static_cast<{ct}>({v})); printf("S|%s|%s\\n", os.str().c_str(), au::unit_label({A.atoms[k]["cxx_unit"]})); }}\n')
+                # QuantityPoint streams as "@(<displacement from the unit's own zero point>)" through the same operator
+                f.write(f'  {{ std::ostringstream os; os << au::make_quantity_point<{A.atoms[k]["cxx_type"]}>(static_cast<{ct}>({v})); printf("T|%s|%s\\n", os.str().c_str(), au::unit_label({A.atoms[k]["cxx_unit"]})); }}\n')
         f.write("  return 0;\n}\n")
     rc, out = cxx(ssrc, os.path.join(wd, "stream"), san=True, opt="-O0")
     if rc != 0:
         violations.append({"what": "stream harness does not compile", "class": "stream-build", "no_input": True, "broken": "harness", "rec": {"kind": "build", "out": out[-1500:]}})
     else:
-        lines = [l for l in run([os.path.join(wd, "stream")], env=UBSAN_ENV)[1].split("\n") if l.startswith("S|")]
+        lines = [l for l in run([os.path.join(wd, "stream")], env=UBSAN_ENV)[1].split("\n") if l.startswith("S|") or l.startswith("T|")]
         for j, line in enumerate(lines):
-            _, txt, lbl = line.split("|")
+            kind, txt, lbl = line.split("|")
             stats["stream_cases"] += 1
-            want = expect[j % len(reps)] + " " + lbl
+            r_ = reps[(j // 2) % len(reps)]
+            want = expect[(j // 2) % len(reps)] + " " + lbl
+            if kind == "T":
+                want = "@(" + want + ")"
             if txt != want:
-                violations.append({"what": f"streaming a {reps[j % len(reps)][0]} quantity prints {txt!r}, expected {want!r}", "class": "stream",
-                                   "rec": {"kind": "stream", "rep": reps[j % len(reps)][0], "got": txt, "want": want}})
+                violations.append({"what": f"streaming a {r_[0]} {'quantity point' if kind == 'T' else 'quantity'} of value {r_[1]} prints {txt!r}, expected {want!r}",
+                                   "class": "stream", "rec": {"kind": "stream", "rep": r_[0], "value": r_[1], "got": txt, "want": want, "point": kind == "T"}})
     coverage = {"evaluations": evaluations + stats["itoa_args"] + stats["stream_cases"], "distinct_nontrivial": len(results),
                 "rule": "case = unit expression (C02's tree generator over library/prefixed units, generated named structs with own / inherited / no "
                         "label, scalings by integers of every size class up to 2^64-1, rationals, unsupported factors, negative and fractional "
